@@ -75,6 +75,10 @@ CAUGHT = {
     "C02-m7": ["C02 quick (after the juxtaposition family / corpus witness was added)"],
     "C02-m8": ["C02 quick (after corpus grammars whose longer token swallows the trailing blank were added)"],
     "C02-m9": ["C02 quick (corpus witnesses)", "C05 quick"],
+    "C05-m8": ["C05 quick"], "C05-m9": ["C05 quick (SLR)"], "C05-m10": ["C05 quick (after the corpus witness with two refused merges widened in one run was added)"],
+    "C16-m7": ["C16 quick (SLR tables)"],
+    "C16-m8": ["NOT CAUGHT and not claimed: the order of SyntaxError.tokens_ahead is not among the observables the property names (serialised tables, forest order, conflict reports, cached tables)"],
+    "C16-m9": ["C16 quick (after the text of the conflict exception was hashed)"],
     "C17-m1": ["C17 quick"], "C17-m2": ["C07 quick (scanner with consume_input=False); not C17 itself (its scope has no terminal priorities)"], "C17-m3": ["C17 quick"],
 }
 
